@@ -12,6 +12,7 @@ region of `divide_and_truncate`).
 import StirVerif.C07.ProofsRun
 import StirVerif.C07.ProofsPost
 import StirVerif.C07.ProofsLogLikCast
+import StirVerif.C07.ProofsZeroEnd
 import Mathlib.Data.Fin.VecNotation
 import Mathlib.Tactic.FinCases
 import Mathlib.Algebra.BigOperators.Fin
@@ -36,7 +37,11 @@ theorem C07_em_formula_voxel (n : Nat) (limit : Bool) (minRel maxRel lam g s pg 
     (`updateEstimate` is validated against the real class on span-1 and span-3, view-mashed and time-of-flight geometries.
     The theorem is stated for ONE matrix `P` in `hg` and `hs`: non-TOF data, or TOF data with TOF sensitivities.  With STIR's
     default `use time-of-flight sensitivities := 0` the sensitivity of TOF data comes from the non-TOF matrix, so `hs`
-    holds for another matrix than `hg`; the harness then evaluates the formula with exactly these two matrices.) -/
+    holds for another matrix than `hg`; the harness then evaluates the formula with exactly these two matrices.)
+    `S` is ANY set of bins: with `zero end planes of segment 0 := 1` (covered by the harness since round 3) it is the set
+    of bins of the subset WITHOUT the first and last sinogram of segment 0 — the same `S` in `hg` and `hs`
+    (`C07_zero_end_planes_removes_rows` below proves, for the executable explicit-matrix model `emExplicit` that the
+    correspondence check compares with the real class, that the code's zeroing of the three viewgrams is exactly that). -/
 theorem C07_em_formula {nb nv : ℕ} (c : Cfg) (k : Nat)
     (P : Fin nb → Fin nv → ℚ) (y a eff : Fin nb → ℚ) (S : Finset (Fin nb)) (lam : Fin nv → ℚ)
     (hmap : c.map = .none) (hfilt : c.interUpdateFilter = none)
@@ -103,6 +108,79 @@ theorem C07_count_preservation {nb nv : ℕ} (P : Fin nb → Fin nv → ℚ) (y 
     (hP : ∀ b j, 0 ≤ P b j) (he : ∀ b, 0 < eff b) (hreg : ∀ b, y b ≠ 0 → fwd P lam b ≠ 0) :
     ∑ j, sensSpec P eff univ j * emStep P y (fun _ => 0) eff univ lam j = ∑ b, y b :=
   count_preservation P y eff lam hP he hreg
+
+/-- … the same for ANY set `S` of bins in place of "all bins": `Σ_j s_S,j λ'_j = Σ_{b∈S} y_b`.  This is the clause for
+    `zero end planes of segment 0 := 1` ("every full-data update" is then the update with all bins but the first and the last
+    sinogram of segment 0: numerator, sensitivity and counts over the same `S`; a sensitivity that still contained the
+    end planes would break it), and it also says what a sub-iteration of several subsets preserves: the counts of its
+    own subset, weighted with the subset sensitivity.  (`C07_count_preservation` is the case `S = univ`.) -/
+theorem C07_count_preservation_subset {nb nv : ℕ} (P : Fin nb → Fin nv → ℚ) (y eff : Fin nb → ℚ) (S : Finset (Fin nb))
+    (lam : Fin nv → ℚ) (hP : ∀ b j, 0 ≤ P b j) (he : ∀ b, 0 < eff b) (hreg : ∀ b ∈ S, y b ≠ 0 → fwd P lam b ≠ 0) :
+    ∑ j, sensSpec P eff S j * emStep P y (fun _ => 0) eff S lam j = ∑ b ∈ S, y b :=
+  count_preservation_subset P y eff S lam hP he hreg
+
+/-! ## The explicit system and `zero end planes of segment 0`
+
+`emExplicit` (Model.lean) is the update with numerator and sensitivity formed by the model itself from an explicit system
+matrix (one `Row` per bin with its counts, additive term, multiplicative viewgram value), the bins chosen as
+`distributable_computation` chooses them and — option `zero end planes of segment 0` — the three viewgrams of the first
+and last sinogram of segment 0 set to zero as `get_viewgrams` / `zero_end_sinograms` (distributable.cxx) do.  The
+correspondence check compares it with the real class (operation `emx`). -/
+
+/-- "maps the image lambda to lambda * A_S^T[y / (A_S lambda + a)] / s_S voxelwise": with the option on, numerator AND
+    sensitivity are those of the system WITHOUT the rows of the first and the last sinogram of segment 0 (option off on the
+    reduced system) — the same set of bins in `A_S^T[…]` and in `s_S`, for subset and for total sensitivities. -/
+theorem C07_zero_end_planes_removes_rows (c : Cfg) (z useSubsetSens : Bool) (maxSeg : Int) (rows : List Row) (k : Nat)
+    (lam : Img) (js : List Nat) :
+    emExplicit c z useSubsetSens maxSeg rows k lam js
+      = emExplicit c false useSubsetSens maxSeg (rows.filter fun r => !zeroedEndPlane z r) k lam js :=
+  emExplicit_zeroed c z useSubsetSens maxSeg rows k lam js
+
+/-- … and `emExplicit` IS the formula of the property (subset sensitivities; non-negative matrix, positive multiplicative
+    viewgrams, relative-change limits inactive or first sub-iteration): voxel `j` becomes
+    `λ_j · Σ_{b∈S} P_bj y_b/((Pλ)_b + a_b) / Σ_{b∈S} P_bj eff_b`, `0` where the subset sensitivity is zero — with the
+    option on or off (no extra hypothesis: a zeroed bin has zero counts, so "numerator zero where the sensitivity is zero"
+    still holds). -/
+theorem C07_em_formula_explicit (c : Cfg) (z : Bool) (maxSeg : Int) (rows : List Row) (k : Nat) (lam : Img) (js : List Nat)
+    (hrows : ∀ r ∈ rows, (∀ e ∈ r.elems, (0 : Rat) ≤ e.2) ∧ 0 < r.eff)
+    (hlim : k = 1 ∨ ∀ j ∈ js,
+      c.minRel ≤ gpsExplicit z maxSeg c.numSubsets (subsetNum k c.startSubset c.numSubsets) rows lam j /
+          sensExplicit z true maxSeg c.numSubsets (subsetNum k c.startSubset c.numSubsets) rows j ∧
+        gpsExplicit z maxSeg c.numSubsets (subsetNum k c.startSubset c.numSubsets) rows lam j /
+          sensExplicit z true maxSeg c.numSubsets (subsetNum k c.startSubset c.numSubsets) rows j ≤ c.maxRel) :
+    emExplicit c z true maxSeg rows k lam js =
+      js.map fun j => Ext.fin
+        (if sensExplicit z true maxSeg c.numSubsets (subsetNum k c.startSubset c.numSubsets) rows j = 0 then 0
+         else voxelOf lam j * gpsExplicit z maxSeg c.numSubsets (subsetNum k c.startSubset c.numSubsets) rows lam j /
+           sensExplicit z true maxSeg c.numSubsets (subsetNum k c.startSubset c.numSubsets) rows j) :=
+  emExplicit_em c z maxSeg rows k lam js hrows hlim
+
+/-- non-vacuity, computed: 3 bins of segment 0 (axial positions 0, 1, 2 of 0..2), 2 voxels, one subset; bin 0 (an end plane)
+    sees voxel 0 only, bin 1 both, bin 2 (the other end plane) voxel 1 only; `λ = [1, 1]`.
+    Option off: `g = [4/1 + 6/2, 6/2 + 2/1] = [7, 5]`, `s = [2, 2]`, `λ' = [7/2, 5/2]`;
+    option on: only bin 1 is left: `g = [3, 3]`, `s = [1, 1]`, `λ' = [3, 3]`. -/
+def exRows : List Row :=
+  [ { seg := 0, basicView := 0, ax := 0, minAx := 0, maxAx := 2, y := 4, a := 0, eff := 1, elems := [(0, 1)] },
+    { seg := 0, basicView := 0, ax := 1, minAx := 0, maxAx := 2, y := 6, a := 0, eff := 1, elems := [(0, 1), (1, 1)] },
+    { seg := 0, basicView := 0, ax := 2, minAx := 0, maxAx := 2, y := 2, a := 0, eff := 1, elems := [(1, 1)] } ]
+
+def exCfg : Cfg :=
+  { numSubsets := 1, startSubset := 0, map := .none, minRel := 0, maxRel := 1000000,
+    interUpdateInterval := 0, interIterationInterval := 0, enforceInitialPositivity := true,
+    gps := fun _ _ => [], sens := fun _ => [], priorGrad := fun _ => [],
+    interUpdateFilter := none, interIterationFilter := none }
+
+example : emExplicit exCfg false true 0 exRows 1 [1, 1] [0, 1] = [.fin (7 / 2), .fin (5 / 2)] ∧
+    emExplicit exCfg true true 0 exRows 1 [1, 1] [0, 1] = [.fin 3, .fin 3] := by
+  constructor <;>
+  norm_num [emExplicit, exCfg, exRows, subsetViewgrams, rowInSubset, zeroEndSinograms, zeroedEndPlane, subsetNum, ratioRow,
+    fwdRow, voxelOf, coeff, sumR, sensVoxel, updVoxel, denom, divide1, absR, mulExt]
+
+/-- the hypothesis `hrows` of `C07_em_formula_explicit` holds for it -/
+example : ∀ r ∈ exRows, (∀ e ∈ r.elems, (0 : Rat) ≤ e.2) ∧ 0 < r.eff := by
+  intro r hr
+  simp only [exRows, List.mem_cons, List.not_mem_nil, or_false] at hr
+  rcases hr with rfl | rfl | rfl <;> constructor <;> simp
 
 /-! ## MAP: one-step-late update and the documented bounds on the denominator -/
 
@@ -428,7 +506,10 @@ example : DataOK [2, 0, 1] [1, 0, 3] := by
     `L(λ) = Σ_b y_b log(eff_b ((Pλ)_b + a_b)) − eff_b ((Pλ)_b + a_b)`, `EM(λ)_j = λ_j · Σ_b P_bj y_b/((Pλ)_b+a_b) / Σ_b P_bj eff_b`
     (0 where the sensitivity is 0): for `P, y, a ≥ 0`, efficiencies `> 0`, a strictly positive image and strictly positive
     estimated data (regular region of `divide_and_truncate`), `L(EM(λ)) ≥ L(λ)`.  (Jensen per bin, `x log x − x + 1 ≥ 0`
-    per voxel; no further assumption — in particular voxels with zero sensitivity and bins without counts are allowed.) -/
+    per voxel; no further assumption — in particular voxels with zero sensitivity and bins without counts are allowed.)
+    The theorem is for every system `(nb, P, y, a, eff)`: with `zero end planes of segment 0 := 1` it is the theorem for the
+    system without the rows of the first and last sinogram of segment 0, which is the system the update uses
+    (`C07_zero_end_planes_removes_rows`) and the one `compute_objective_function` evaluates (harness oracle `loglik-value`). -/
 theorem C07_loglik_monotone_real {nb nv : ℕ} (P : Fin nb → Fin nv → ℝ) (y a eff : Fin nb → ℝ) (lam : Fin nv → ℝ)
     (hP : ∀ b j, 0 ≤ P b j) (hy : ∀ b, 0 ≤ y b) (ha : ∀ b, 0 ≤ a b) (he : ∀ b, 0 < eff b) (hl : ∀ j, 0 < lam j)
     (hq : ∀ b, 0 < Real.ybar P a lam b) :
